@@ -401,6 +401,20 @@ fn main() {
         },
         Some("corpus-filter") => corpus_filter(),
         Some("check") => std::process::exit(check(&args[2], args.get(3).map(|s| s.as_str()).unwrap_or("quick"))),
+        Some("try") => {
+            // garble-sim try <file.garble.rs> : compile a program with every option, print the outcomes
+            install_panic_hook();
+            let src = std::fs::read_to_string(&args[2]).expect("file");
+            let mut p = prng::Prng::new(1);
+            let a = analyse(&src, &mut p);
+            println!("typechecks={} consts={:?} fns={:?} {}", a.typechecks, a.consts, a.pub_fns, a.note);
+            for o in Opts::all() {
+                let r = guarded(|| compile_src(&src, a.pub_fns.first().map(|s| s.as_str()).unwrap_or("main"), build_consts(&a.consts, &[], 0), o, false));
+                let (out, c) = outcome_of(r);
+                let parties = c.as_ref().map(|c| c.input_lengths().collect::<Vec<_>>());
+                println!("{} -> {:?} parties={:?}", o.name(), out, parties);
+            }
+        }
         Some("replay") => std::process::exit(replay(&args[2])),
         Some("c06-child") => {
             install_panic_hook();
